@@ -263,10 +263,29 @@ pub static C05: PropDef = PropDef {
     id: "C05",
     level: "exploration",
     engine: "sweep",
-    rule: "generated literals with value known by construction: 13 magnitudes (0 .. 2^31, 2^53+1, 2^63-1, 2^63, 2^63+1, 2^64-1, 2^64, 10^19, 10^20) x {dec, 0b, 0o, 0x} x prefix/digit case x 4 separator patterns x leading zeros x sign {none,-,+} x 25 operand positions (classical operands, CALL immediate, 7 expression positions, permutation entries, PRAGMA, memory index, qubit, DECLARE length, OFFSET); 24 real spellings x 3 signs x 11 positions. Accepted => operand equals the mathematical value with the literal kind preserved. non-trivial = accepted literal (distinct by text)",
+    rule: "generated literals with value known by construction: 13 magnitudes (0 .. 2^31, 2^53+1, 2^63-1, 2^63, 2^63+1, 2^64-1, 2^64, 10^19, 10^20; thorough: every 2^k and 2^k+-1 for k <= 65 and every 10^k for k <= 21, ~220 magnitudes) x {dec, 0b, 0o, 0x} x prefix/digit case x 4 separator patterns x leading zeros x sign {none,-,+} x 25 operand positions (classical operands, CALL immediate, 7 expression positions, permutation entries, PRAGMA, memory index, qubit, DECLARE length, OFFSET); 24 real spellings x 3 signs x 11 positions. Accepted => operand equals the mathematical value with the literal kind preserved. non-trivial = accepted literal (distinct by text)",
     assumptions: &["reference value of a real literal = Rust's correctly rounded str::parse::<f64> of the digits without separators"],
     run: |ctx| {
-        for &m in MAGS {
+        let mut mags: Vec<u128> = MAGS.to_vec();
+        if ctx.tier == Tier::Thorough {
+            // every power of two up to 2^65 and its two neighbours, plus decimal round numbers
+            for k in 0..=65u32 {
+                for d in [-1i128, 0, 1] {
+                    let v = (1i128 << k) + d;
+                    if v >= 0 && !mags.contains(&(v as u128)) {
+                        mags.push(v as u128);
+                    }
+                }
+            }
+            for k in 1..=21u32 {
+                let v = 10u128.pow(k);
+                if !mags.contains(&v) {
+                    mags.push(v);
+                }
+            }
+        }
+        ctx.bound("integer_magnitudes", json!(mags.len()));
+        for &m in &mags {
             for radix in [10u32, 2, 8, 16] {
                 for upper in [false, true] {
                     if radix == 10 && upper {
